@@ -125,9 +125,9 @@ func TestC07(t *testing.T) {
 		Ops: scale(allDocOps, map[string]int{"SetXattrs": 12, "UpdateXattrs": 12, "RemoveXattrs": 8, "DeleteSubDocPaths": 6, "WriteWithXattrs": 16,
 			"WriteTombstoneWithXattrs": 8, "WriteResurrectionWithXattrs": 7, "WriteUpdateWithXattrs": 14, "DeleteWithXattrs": 5,
 			"Set": 7, "SetRaw": 3, "WriteCas": 8, "Update": 5, "Incr": 2, "WriteSubDoc": 3, "Touch": 2}),
-		CasW:        map[string]int{"current": 60, "zero": 15, "prev": 12, "never": 6, "other": 3, "purged": 4},
-		Keys:        []string{"a", "b", "c"},
-		SmallDocs:   true, BadArgs: 15, MultiHandle: true, Purge: 1, Reopen: 1, Sync: 1, FeedsMax: 1,
+		CasW:      map[string]int{"current": 60, "zero": 15, "prev": 12, "never": 6, "other": 3, "purged": 4},
+		Keys:      []string{"a", "b", "c"},
+		SmallDocs: true, BadArgs: 15, MultiHandle: true, Purge: 1, Reopen: 1, Sync: 1, FeedsMax: 1,
 	}
 	seqProperty(t, "C07", "TestC07", pr, 1500,
 		"rapid histories weighted to the xattr entry points with generated subsets to set/delete (absent names, same name in both lists, invalid names, invalid JSON, nil values, oversize with lowered MaxDocSize) and CAS/CRC32c macro specs; non-trivial = a call on a document carrying at least two xattrs it does not name, or a call that fails after argument validation (CAS mismatch / missing xattr / oversize), or a macro expansion; distinct by <op, prior class, CAS class, outcome> sequence",
@@ -179,8 +179,8 @@ func TestC18Seq(t *testing.T) {
 	pr := &Profile{
 		Ops: map[string]int{"WriteSubDoc": 30, "SubdocInsert": 18, "Set": 10, "SetRaw": 3, "Add": 4, "Delete": 5, "WriteCas": 5, "Update": 3,
 			"SetXattrs": 4, "WriteWithXattrs": 4, "WriteTombstoneWithXattrs": 2, "Incr": 1},
-		Keys:        []string{"a", "b"},
-		SmallDocs:   true, MultiHandle: true, Purge: 1, Reopen: 1,
+		Keys:      []string{"a", "b"},
+		SmallDocs: true, MultiHandle: true, Purge: 1, Reopen: 1,
 	}
 	seqProperty(t, "C18", "TestC18Seq", pr, 2000,
 		"rapid histories weighted to WriteSubDoc / SubdocInsert with generated dotted paths (present / absent leaf, absent parent, through non-objects, refused syntax), values (incl. empty = remove), CAS classes, on object / non-object / raw / deleted / absent documents, compared with a parse-edit-marshal reference; non-trivial = a successful write at a nested path (>= 2 components) into a document with >= 3 sibling properties, or any refused sub-document write on an existing document; distinct by <op, prior class, CAS class, outcome> sequence",
